@@ -84,7 +84,7 @@ SAPI = {'test': 'TestVerifStreamAPI', 'comp': 'sa', 'corpus_glob': 'sapi_*.ops',
 PROPS = {
     'C05': {'jobs': [RQ, ARCV]},
     'C16': {'jobs': [GENF, RQ, ASND, ARACK, ARCV, RSD]},
-    'C01': {'jobs': [REASM, ASND, ARCV, E2E_T], 'assumptions': [
+    'C01': {'jobs': [REASM, ASND, ARCV, SAPI, E2E_T], 'assumptions': [
         'sender half (Props/C01wire.lean): payload BYTES are not in the sender model (lengths and fragment identity only); that a chunk carries the matching slice of the written buffer is observed by the e2e content hashes',
         'receive-side system theorem (C01_receiver_prefix): chunks are the fragments of the peer\'s messages (universe of Reasm.Sender per stream, fewer than 2^31 TSNs in all), reliable streams only (no FORWARD-TSN, no reset in the run)',
         'fewer than 2^15 ordered messages of a stream outstanding (SSN half-space; known finding D15); fewer than 2^31 TSNs/MIDs outstanding',
